@@ -13,13 +13,16 @@ from .c11 import _check_elem
 
 PROPERTY = "C01"
 MODULES = ["volume_reader", "data_types", "precomputed_io", "chunk_encoding", "file_accessor", "sharded_file_accessor", "accessor"]
-FUNCTIONS = ["volume_reader.nibabel_image_to_precomputed", "volume_reader.volume_to_precomputed",
+FUNCTIONS = ["volume_reader.volume_file_to_precomputed (RGB split)", "volume_reader.nibabel_image_to_precomputed", "volume_reader.volume_to_precomputed",
              "data_types.get_chunk_dtype_transformer", "precomputed_io.get_IO_for_existing_dataset / PrecomputedIO.write_chunk/read_chunk",
              "chunk_encoding encoders (raw, compressed_segmentation)", "accessor.get_accessor_for_url",
              "file_accessor.FileAccessor / sharded_file_accessor.ShardedFileAccessor (store, close, fetch)"]
 STUBS = ["nibabel image -> fake image: header.get_data_shape(), affine, dataobj proxy with _slope/_inter and slicing "
          "(the application of slope/intercept is exact dyadic arithmetic; nibabel's own arithmetic is outside)",
-         "model file system, NPProxy, StructProxy, tqdm no-op, atexit captured and run at the end of the simulated process"]
+         "model file system, NPProxy, StructProxy, tqdm no-op, atexit captured and run at the end of the simulated process",
+         "RGB volumes (harness 'rgb'): record array = one symbolic uint8 array per field + memory order (Fortran as nibabel loads "
+         "files, C for in-memory images); a view with another item size takes shape, order and errors from NumPy itself applied "
+         "to a concrete record array of byte identifiers; nibabel.Nifti1Image -> fake image"]
 ASSUMPTIONS = ["slope/intercept in the value harness are dyadic (0.5, 10) so that nibabel's scaling is exact",
                "the --input-min/--input-max rewriting is checked as a real-arithmetic identity (float rounding excluded)"]
 EXPLANATION = ("Every voxel of the input volume is symbolic; after the real conversion a fresh accessor reads every chunk of "
@@ -29,10 +32,10 @@ EXPLANATION = ("Every voxel of the input volume is symbolic; after the real conv
                "identity over the reals for symbolic header scaling and limits.")
 BOUNDS = {"quick": "volumes up to 3x3x2 (+ 5x1x2), 1-3 channels, chunk sizes from {1,2,4} incl. non-dividing; dtypes "
                    "uint8/16/32/64/float32 identity, int16->uint8, uint16->float32, uint8->uint32, scaled(0.5*v+10)->uint8; "
-                   "encodings raw / compressed_segmentation (block 2,2,2 and 2,2,1); layouts deep, flat, gzip, sharded(1,1,0)",
+                   "encodings raw / compressed_segmentation (block 2,2,2 and 2,2,1); layouts deep, flat, gzip, sharded(1,1,0); "
+                   "RGB volumes 3x2x2, 2x3x1, 2x2x2, 1x1x3 in both memory orders through volume_file_to_precomputed",
           "thorough": "volumes up to 5x4x3, more dtype pairs"}
-OUTSIDE = ["nibabel file parsing and its slope/intercept arithmetic", "real gzip", "JPEG", "RGB (structured dtype) inputs: the "
-           "ndarray.view-based channel split needs a structured-dtype memory model"]
+OUTSIDE = ["nibabel file parsing and its slope/intercept arithmetic", "real gzip", "JPEG", "record dtypes other than one-byte R,G,B"]
 
 
 def _cfg(shape, cs, i, o, enc="raw", layout="deep", full=True, scaling=None, ignore=False, block=None, **kw):
@@ -43,6 +46,14 @@ def _cfg(shape, cs, i, o, enc="raw", layout="deep", full=True, scaling=None, ign
 
 
 def configs(tier, seed):
+    rgb = [dict(harness="rgb", shape=[3, 2, 2], cs=[2, 2, 2], order="F", layout="deep", full=True, cost=2, wall=900),
+           dict(harness="rgb", shape=[2, 3, 1], cs=[2, 2, 1], order="F", layout="flat", full=False, cost=2, wall=900),
+           dict(harness="rgb", shape=[2, 2, 2], cs=[1, 2, 2], order="C", layout="gzip", full=True, cost=2, wall=900),
+           dict(harness="rgb", shape=[1, 1, 3], cs=[1, 1, 2], order="F", layout="deep", full=True, cost=2, wall=900)]
+    return _configs(tier, seed) + rgb
+
+
+def _configs(tier, seed):
     out = [
         _cfg((3, 2, 2), (2, 2, 2), "uint8", "uint8"),
         _cfg((3, 3, 2, 2), (2, 2, 1), "uint16", "uint16", layout="flat"),
@@ -166,6 +177,41 @@ def H_convert(ctx, cfg):
         ctx.prove(z3.And(conds), "every-voxel-equals-input-voxel-at-the-same-position")
 
 
+def H_rgb(ctx, cfg):
+    """RGB (record dtype) volume file through volume_file_to_precomputed: out[c,z,y,x] == field c of voxel (x,y,z)."""
+    from ..sarray import SStructArray
+    shape, cs = cfg["shape"], cfg["cs"]
+    W = V.World()
+    fields = {n: SArray.fresh(tuple(shape), "uint8", f"{n.lower()}_") for n in ("R", "G", "B")}
+    ctx.input("volume", [x.__zexpr__() for n in "RGB" for x in fields[n].a.ravel()])
+    vol = SStructArray(fields, order=cfg["order"])           # nibabel hands out Fortran-ordered arrays for files
+    info = V.make_info("uint8", 3, shape, cs)
+    url = "/mfs/out"
+    W.put_info(url, info)
+    options = dict(flat=cfg["layout"] == "flat", gzip=cfg["layout"] == "gzip")
+    W.images["/in/rgb.nii"] = V.FakeImage(vol)
+    rc = W.vr.volume_file_to_precomputed("/in/rgb.nii", url, load_full_volume=cfg["full"], options=options)
+    W.finish()
+    ctx.prove(not rc, "conversion-succeeds", detail=str(rc))
+    out, problems, _ = W.read_scale(url, info, 0, options)
+    ctx.sample(dict(cfg={k: cfg[k] for k in ("shape", "cs", "order", "layout", "full")}, files=sorted(W.env.fs.files)[:6]))
+    if problems:
+        ctx.fail("chunk-read-back", detail="; ".join(problems[:3]))
+        return
+    X, Y, Z = shape
+    conds = []
+    for c, n in enumerate("RGB"):
+        for z in range(Z):
+            for y in range(Y):
+                for x in range(X):
+                    got = out[c, z, y, x]
+                    if got is None:
+                        ctx.fail("voxel-not-written", detail=str((c, z, y, x)))
+                        return
+                    conds.append(V.eq_elems(got, fields[n].a[x, y, z]))
+    ctx.prove(z3.And(conds), "every-voxel-equals-input-voxel-at-the-same-position")
+
+
 def H_scaling(ctx, cfg):
     """--input-min/--input-max: the rewritten slope/intercept compose the header scaling with the linear map
     [input_min, input_max] -> [output_min, output_max] (identity over the reals)."""
@@ -216,12 +262,60 @@ def H_scaling(ctx, cfg):
 
 # --------------------------------------------------------------------- replay
 
+def _replay_rgb(cfg, inp):
+    import os
+    import tempfile
+    import nibabel
+    vr = load.mod("volume_reader")
+    pio = load.mod("precomputed_io")
+    acc_mod = load.mod("accessor")
+    shape, cs = cfg["shape"], cfg["cs"]
+    vals = real_np.array(inp["volume"], dtype=real_np.uint8).reshape((3,) + tuple(shape))
+    rgb = real_np.zeros(tuple(shape), dtype=[("R", "u1"), ("G", "u1"), ("B", "u1")], order=cfg["order"])
+    for c, n in enumerate("RGB"):
+        rgb[n] = vals[c]
+    options = dict(flat=cfg["layout"] == "flat", gzip=cfg["layout"] == "gzip")
+    with tempfile.TemporaryDirectory() as td:
+        fn = os.path.join(td, "rgb.nii")
+        nibabel.save(nibabel.Nifti1Image(rgb, real_np.eye(4)), fn)
+        url = os.path.join(td, "out")
+        info = V.make_info("uint8", 3, shape, cs)
+        pio.get_IO_for_new_dataset(info, acc_mod.get_accessor_for_url(url, options))
+        try:
+            if cfg["order"] == "F":
+                rc = vr.volume_file_to_precomputed(fn, url, load_full_volume=cfg["full"], options=options)
+            else:       # a C-ordered record array can only come from memory: hand the image over as the tests do
+                import unittest.mock
+                with unittest.mock.patch("nibabel.load", return_value=nibabel.Nifti1Image(rgb, real_np.eye(4))):
+                    rc = vr.volume_file_to_precomputed(fn, url, load_full_volume=cfg["full"], options=options)
+        except Exception as e:
+            return True, f"RGB volume {tuple(shape)} ({cfg['order']}-ordered): conversion raised {type(e).__name__}: {e}"
+        if rc:
+            return True, f"conversion returned {rc}"
+        r = pio.get_IO_for_existing_dataset(acc_mod.get_accessor_for_url(url, options))
+        X, Y, Z = shape
+        for x0 in range(0, X, cs[0]):
+            for y0 in range(0, Y, cs[1]):
+                for z0 in range(0, Z, cs[2]):
+                    cc = (x0, min(x0 + cs[0], X), y0, min(y0 + cs[1], Y), z0, min(z0 + cs[2], Z))
+                    try:
+                        ch = r.read_chunk("full", cc)
+                    except Exception as e:
+                        return True, f"chunk {cc} unreadable: {type(e).__name__}: {e}"
+                    want = real_np.stack([rgb[n][cc[0]:cc[1], cc[2]:cc[3], cc[4]:cc[5]].transpose(2, 1, 0) for n in "RGB"])
+                    if ch.shape != want.shape or not real_np.array_equal(ch, want):
+                        return True, f"chunk {cc}: stored {ch.ravel().tolist()} expected {want.ravel().tolist()}"
+    return False, "every RGB voxel preserved on the real code"
+
+
 def replay(cfg, cex):
     import os
     import tempfile
     import nibabel
     from fractions import Fraction
     inp = cex["inputs"]
+    if cfg["harness"] == "rgb":
+        return _replay_rgb(cfg, inp)
     if cfg["harness"] == "scaling":
         vr = load.mod("volume_reader")
         pio = load.mod("precomputed_io")
